@@ -58,6 +58,10 @@ func genC15Plan(r *zsim.Rng) *sysPlan {
 			}
 			fmt.Fprintf(&b, "#x%d", k)
 			p.Lines.Extra = append(p.Lines.Extra, b.String())
+			if r.Chance(1, 3) {
+				// U+FFFD is a character like any other (and what every invalid byte of the input becomes)
+				p.Lines.Extra = append(p.Lines.Extra, pick(r, "ab\uFFFDcd|", "\uFFFD\uFFFD x\uFFFD|", "fa\uFFFD"+strings.Repeat(" ab\uFFFD", r.Range(1, 30))+"|"))
+			}
 		}
 	}
 	if r.Chance(1, 4) {
